@@ -16,7 +16,8 @@ RULE = ('(table) the full product local tls_enable x require_tls {None,True,Fals
         'property text: TLS attempted <=> both offer; require_tls=True never proceeds in clear, False never secured; '
         'under TLS established <=> no presented identifier of a kind we hold a reference for contradicts it AND '
         '(host required => an IP or DNS identifier matches) AND (node required => a URI identifier matches); otherwise '
-        'SESS_TERM contact-failure or close and never established, and a transfer the refused peer offers afterwards is '
+        'SESS_TERM contact-failure or close and never established; reserved contact header flag bits next to CAN_TLS change '
+        'nothing; a SESS_INIT the peer wrote in clear behind its contact header does not count once TLS is used; and a transfer the refused peer offers afterwards is '
         'neither acknowledged nor handed to the application.  Observed: SESS_INIT on the wire, '
         'session_state_changed(established), is_secure(), authn_* of get_session_parameters().  Non-trivial = TLS '
         'attempted and the certificate carries >= 1 SAN; distinct by SHA-1 of the case.')
@@ -57,6 +58,11 @@ def strategy(tier):
         'require_tls': st.sampled_from([None, True]),
         # the handler was given a host name (node.example) rather than the literal address: a DNS-ID reference exists
         'by_name': st.booleans(),
+        # reserved contact header flag bits next to CAN_TLS (they are to be ignored)
+        'peer_flag_extra': st.sampled_from([0, 0, 0x02, 0x80, 0x82]),
+        # the peer writes its SESS_INIT in clear right behind its contact header, in one flight, and then says nothing
+        # under TLS: when TLS is used that SESS_INIT must not count
+        'inject': st.sampled_from([False, False, True]),
     })
 
 
@@ -239,19 +245,26 @@ def execute(case):
     end = world.real
     hdl = end.hdl
     world.settle()
-    peer_flags = r.CH_CAN_TLS if case.get('peer_can_tls', True) else 0
-    world.peer_send(r.encode({'t': 'CH', 'magic': r.MAGIC.hex(), 'version': 4, 'flags': peer_flags}))
+    peer_flags = (r.CH_CAN_TLS if case.get('peer_can_tls', True) else 0) | int(case.get('peer_flag_extra') or 0)
+    init_octets = r.encode({'t': 'SESS_INIT', 'keepalive': 0, 'segment_mru': 1000, 'transfer_mru': 10 ** 6,
+                            'nodeid': nodeid, 'ext': []})
+    inject = bool(case.get('inject'))
+    world.peer_send(r.encode({'t': 'CH', 'magic': r.MAGIC.hex(), 'version': 4, 'flags': peer_flags}) + (init_octets if inject else b''))
     world.settle()
     secure_after_contact = None
     if not end.sock.closed:
         secure_after_contact = tw.dbuscall(end.ctx, hdl, 'is_secure')
-        try:
-            world.peer_send(r.encode({'t': 'SESS_INIT', 'keepalive': 0, 'segment_mru': 1000, 'transfer_mru': 10 ** 6,
-                                      'nodeid': nodeid, 'ext': []}))
-        except OSError:
-            pass
+        if not inject:
+            try:
+                world.peer_send(init_octets)
+            except OSError:
+                pass
         world.settle()
     want = policy(case, peer_addr)
+    if inject and want['attempt'] and want['proceed']:
+        # TLS is used and the only SESS_INIT the peer ever wrote travelled in clear before the handshake
+        want = dict(want, established=False)
+        out.label('cleartext-sess-init-before-tls')
     # a peer that was refused must not be able to use the connection as a session: it offers a complete transfer
     refused_peer_transfer = False
     if (not want['proceed'] or not want['established']) and not end.sock.closed:
@@ -284,7 +297,8 @@ def execute(case):
     else:
         if secure_after_contact is not None and bool(secure_after_contact) != want['secured']:
             out.fail('secured-state-wrong', 'is_secure() is %s, policy says TLS %s' % (secure_after_contact, want['secured']))
-        if not sent_init and not world.escapes():
+        if not sent_init and not world.escapes() and not (inject and want['attempt']):
+            # (after cleartext octets ahead of the TLS handshake the endpoint may as well refuse the contact)
             out.fail('sess-init-missing', 'policy allows the session but no SESS_INIT was sent (closed=%s)' % end.sock.closed)
         if want['established'] and not was_established and not world.escapes():
             out.fail('not-established', 'policy allows the session (sans=%s req_host=%s req_node=%s nodeid=%r) but it was not '
@@ -295,7 +309,7 @@ def execute(case):
                 out.fail('established-against-authn-policy', 'session established although authentication must fail '
                          '(sans=%s req_host=%s req_node=%s nodeid=%r active=%s)'
                          % (sans, case.get('req_host'), case.get('req_node'), nodeid, active))
-            elif not world.escapes():
+            elif not world.escapes() and not (inject and want['attempt']):
                 if not end.sock.closed and not any(t['reason'] == 4 for t in terms):
                     out.fail('authn-failure-not-terminated', 'authentication failed but neither SESS_TERM(contact failure) nor '
                              'close followed (SESS_TERM reasons %s)' % [t['reason'] for t in terms])
